@@ -24,6 +24,12 @@ REPO = os.environ.get('AM_REPO', '/repo')
 sys.path.insert(0, HERE)
 from selftest_variants import VARIANTS  # noqa: E402
 
+# behaviour-preserving edits written by independent agents (benign/*.diff): every check must stay silent on them
+import glob  # noqa: E402
+for _p in sorted(glob.glob(os.path.join(VERIF, 'benign', '*.diff'))):
+    _n = os.path.basename(_p)[:-5]
+    VARIANTS.append({'id': 'benign:' + _n, 'prop': _n[:3], 'expect': 'silent', 'edits': [], 'patch': _p, 'witness': False})
+
 
 def make_copy():
     tmp = tempfile.mkdtemp(prefix='amself-')
@@ -52,6 +58,12 @@ def run_variant(v):
         err = apply_edits(dst, v['edits'])
         if err:
             return v, 'stale', err, ''
+        if v.get('patch'):
+            pp = subprocess.run('git init -q && git add -A && git -c user.email=x@x -c user.name=x commit -qm base && git apply --whitespace=nowarn %s' % v['patch'],
+                                cwd=dst, shell=True, stdout=subprocess.PIPE, stderr=subprocess.STDOUT, text=True)
+            if pp.returncode != 0:
+                # written against an earlier tree of the crate: not applicable any more, not a failure of the checker
+                return v, 'ok', 'skipped: patch does not apply to this tree', ''
         evid = os.path.join(tmp, 'evidence')
         env = dict(os.environ, AM_REPO=dst, AM_EVID=evid, AM_CACHE=os.path.join(tmp, 'cache'), AM_NO_SELFTEST='1')
         if not v.get('witness'):
